@@ -187,8 +187,20 @@ class C05(Prop):
             else:
                 it = [float(rng.choice([0, 1, 2, 3, 5, 8, 100, 1000, 2047, rng.randint(0, 2047)])) for _ in mz]
             spectra.append({"x": x, "y": y, "mz": mz, "it": it, "tic": self.gen_tic(rng, sum(it))})
+        # a dominant peak below every window (m/z < 30 < 96 - 128/2): the window sums stay small exact integers,
+        # but any implementation that lets peaks OUTSIDE the window take part in float32 arithmetic
+        # (running totals, subtraction of prefix sums) rounds them away.  The summed TIC / binning would be
+        # inexact in float32 for such spectra, so the TIC is stored and binning is skipped.
+        dominant = (not real) and itdt == "f4" and bool(spectra) and not nshared and rng.random() < 0.5
+        if dominant:
+            for sp in spectra:
+                if rng.random() < 0.7:
+                    big = float(2 ** rng.choice([25, 27, 30]))
+                    sp["mz"] = [rng.randint(1 * 64, 29 * 64) / 64] + sp["mz"]
+                    sp["it"] = [big] + sp["it"]
+                    sp["tic"] = float(rng.choice([0.0, 7.25, 1536.0]))
         binw = None
-        if spectra and not real and rng.random() < 0.55:
+        if spectra and not real and not dominant and rng.random() < 0.55:
             binw = rng.choice([0.25, 0.5, 1.0, 1.0, 2.0, 4.0, 16.0])
             if rng.random() < 0.6 and not nshared:
                 self.densify(rng, spectra, binw)
